@@ -143,14 +143,36 @@ fn sweep_zone_lookups(rec: &Recorder) -> Tally {
     use tz::timezone::{AlternateTime, MonthWeekDay, RuleDay, Transition, TransitionRule};
     let lt = |o: i32, d: bool, n: &[u8]| LocalTimeType::new(o, d, Some(n)).unwrap();
     let types = [lt(0, false, b"STD"), lt(3600, true, b"DST")];
-    let trans = [Transition::new(-86400 * 400, 1), Transition::new(-86400, 0), Transition::new(-3600, 1), Transition::new(-1, 0), Transition::new(0, 1), Transition::new(1, 0), Transition::new(3600, 1), Transition::new(86400, 0)];
-    let fixed = Some(TransitionRule::Fixed(types[0]));
+    // incl. transitions where the nanosecond count leaves 64 bits (before 1677 / after 2262) and at other machine limits
+    let trans = [
+        Transition::new(-(1i64 << 62), 0),
+        Transition::new(-20_000_000_000, 1),
+        Transition::new(-10_000_000_000, 0),
+        Transition::new(-9_223_372_037, 1),
+        Transition::new(-9_223_372_036, 0),
+        Transition::new(-4_294_967_296, 1),
+        Transition::new(-86400 * 400, 0),
+        Transition::new(-86400, 1),
+        Transition::new(-3600, 0),
+        Transition::new(-1, 1),
+        Transition::new(0, 0),
+        Transition::new(1, 1),
+        Transition::new(3600, 0),
+        Transition::new(86400, 1),
+        Transition::new(4_294_967_296, 0),
+        Transition::new(9_223_372_036, 1),
+        Transition::new(9_223_372_037, 0),
+        Transition::new(18_446_744_073, 1),
+        Transition::new(18_446_744_074, 0),
+        Transition::new(1i64 << 62, 1),
+    ];
+    let fixed = Some(TransitionRule::Fixed(types[1]));
     let m = |a: u8, b: u8, c: u8| RuleDay::MonthWeekDay(MonthWeekDay::new(a, b, c).unwrap());
     let us = AlternateTime::new(lt(-18000, false, b"EST"), lt(-14400, true, b"EDT"), m(3, 2, 0), 7200, m(11, 1, 0), 7200).unwrap();
     let us_types = [*us.std(), *us.dst()];
     let us_rule = Some(TransitionRule::Alternate(us));
     let none = None;
-    let zones = [TimeZoneRef::new(&trans, &types, &[], &fixed).unwrap(), TimeZoneRef::new(&trans[..7], &types, &[], &none).unwrap(), TimeZoneRef::new(&[], &us_types, &[], &us_rule).unwrap()];
+    let zones = [TimeZoneRef::new(&trans, &types, &[], &fixed).unwrap(), TimeZoneRef::new(&trans[..19], &types, &[], &none).unwrap(), TimeZoneRef::new(&[], &us_types, &[], &us_rule).unwrap()];
     let cyc = refmodel::cal::Cycle::build();
     let spec = refmodel::rule::RuleSpec { std_off: -18000, dst_off: -14400, start: refmodel::rule::Day::M(3, 2, 0), start_time: 7200, end: refmodel::rule::Day::M(11, 1, 0), end_time: 7200 };
     let mut instants: Vec<i64> = trans.iter().map(|t| t.unix_leap_time()).collect();
